@@ -19,6 +19,7 @@ Input classes (all general, none tied to a known defect):
     digit offsets (`_huge`).
 """
 from .common import *
+import re
 
 OPS = ["overflowing_shl", "overflowing_shr", "checked_shl", "checked_shr", "wrapping_shl", "wrapping_shr",
        "unbounded_shl", "unbounded_shr", "rotate_left", "rotate_right", "strict_shl", "strict_shr"]
@@ -231,8 +232,53 @@ def _huge(rng, tier):
                         yield l, "huge-8192"
 
 
+# The operators `<<` `>>` `<<=` `>>=` also exist with every primitive integer type and with `BUint<M>` / `BInt<M>` as the
+# amount type (src/int/ops.rs).  Those impls convert the amount before they reach the inherent shift, and "shl returns
+# x * 2^s for every s < BITS" is about them as well: the vocabulary and harness bin of C17 are reused for amounts inside
+# the range and next to BITS, in particular amounts that do not fit the amount type's first digit (s >= 2^w for u8
+# digits).  Added after seeded change C05-r7m1 (amount read from the low digit only).
+HARNESS_BINS = ["c05", "c17"]
+_C17_OP = re.compile(r"sh[lr]_(b[ui]\d*|u32|[ui](8|16|32|64|128|size))_")
+
+
+def ROUTE(line):
+    return "c17" if _C17_OP.match(line) else "c05"
+
+
+def _typed_amounts(rng, tier):
+    from . import c17
+    reps = 3 if tier == "thorough" else 1
+    for cfg in (c17.CFGS17 if tier == "thorough" else c17.QUICK17):
+        w, n = wn(cfg)
+        W = w * n
+        for s in "ui":
+            for _ in range(reps):
+                for sh in ("shl", "shr"):
+                    for kind in ("bu", "bi"):
+                        for m in (n, 1, 2, n + 1):
+                            Wk = w * m
+                            top = min(W, 1 << (Wk - (1 if kind == "bi" else 0)))      # amounts this type can hold, below BITS
+                            ks = [rng.randrange(top), top - 1, rng.choice([0, 1, W - 1, W, W + 1]) % (1 << Wk)]
+                            if top > (1 << w):
+                                ks += [1 << w, rng.randrange(1 << w, top), (1 << w) + rng.randrange(w)]   # needs the second digit
+                            if top > (1 << 16):
+                                ks.append(rng.randrange(1 << 16, top))
+                            for k in ks:
+                                t, a = value(rng, w, n)
+                                mode = rng.choice(("dbg", "rel"))
+                                yield f"{sh}_{kind}{'' if m == n else m}_{rng.choice(c17.SFORMS)} {s}{cfg} {mode} {hx(a)} {hx(k)}", "typed-amount-" + t
+                    for ty in c17.PRIM:
+                        bits, signed = c17.PRIM[ty]
+                        top = min(W, 1 << (bits - (1 if signed else 0)))
+                        for k in (rng.randrange(top), top - 1):
+                            t, a = value(rng, w, n)
+                            for mode in ("dbg", "rel"):
+                                yield f"{sh}_{ty}_{rng.choice(c17.SFORMS)} {s}{cfg} {mode} {hx(a)} {k}", "typed-amount-" + t
+
+
 def gen(rng, tier):
     yield from _gen_main(rng, tier)
+    yield from _typed_amounts(rng, tier)
     yield from _grid(rng, tier)
     yield from _sweep(rng, tier)
     yield from _digit_offsets(rng, tier)
